@@ -119,7 +119,10 @@ fn worker_main() {
     let stdout = std::io::stdout();
     for l in stdin.lock().lines() {
         let Ok(l) = l else { break };
-        let o = match Sx::parse(&l) { Some(sx) => run_inproc(&sx), None => "badinput".into() };
+        let o = match Sx::parse(&l) {
+            Some(sx) => catch(|| run_inproc(&sx)).unwrap_or("harness-panic".into()),
+            None => "badinput".into(),
+        };
         let mut h = stdout.lock();
         let _ = writeln!(h, "{o}");
         let _ = h.flush();
@@ -215,7 +218,11 @@ fn run_step(a: &[Sx]) -> String {
             _ => return "gen-panic".into(),
         }
         let ts = current_tours(&state);
-        PopulationEvaluator::new::<P>().execute(&problem, &mut state).unwrap();
+        // the harness' Tsp refuses a NaN tour length (malformed distance matrices only)
+        match catch(|| PopulationEvaluator::new::<P>().execute(&problem, &mut state)) {
+            Some(Ok(())) => {}
+            _ => return list(["eval-panic".to_string(), tours_s(&ts), witness(n, &ts)]),
+        }
         let objs = tagged("objs", state.populations().current().iter().map(|i| fx(i.objective().value())));
         match catch(|| upd.execute(&problem, &mut state)) {
             Some(Ok(())) => list(["ok".to_string(), tours_s(&ts), witness(n, &ts), objs, mat_s("pm", n, read_pm(&state, n))]),
@@ -521,7 +528,7 @@ fn main() {
     };
 
     // 1. AcoGeneration alone on arbitrary pheromone matrices
-    let n_gen = if a.thorough { 12000 } else { 1500 };
+    let n_gen = if a.thorough { 30000 } else { 3000 };
     for c in 0..n_gen {
         let malformed = c % 12 == 11;
         let n = g.rng.range(3, 8) as usize;
@@ -531,7 +538,7 @@ fn main() {
         emit(&mut out, if malformed { "AcoGeneration/malformed" } else { "AcoGeneration" }, input);
     }
     // 2. the two update components alone on prepared populations
-    let n_upd = if a.thorough { 12000 } else { 1500 };
+    let n_upd = if a.thorough { 30000 } else { 3000 };
     for c in 0..n_upd {
         let malformed = c % 10 == 9;
         let mmas = c % 4 >= 2;
@@ -546,7 +553,7 @@ fn main() {
         emit(&mut out, &site, input);
     }
     // 3. chains of assembled generation → evaluation → update steps: every reached matrix is the next input
-    let n_chain = if a.thorough { 1500 } else { 220 };
+    let n_chain = if a.thorough { 4000 } else { 400 };
     for c in 0..n_chain {
         let mmas = c % 2 == 1;
         let malformed = c % 15 == 14;
@@ -578,7 +585,7 @@ fn main() {
             for instance in 0..N_INSTANCES {
                 let seed = g.rng.below(1 << 32);
                 let sample: Box<dyn Fn(u32) -> bool + Send> =
-                    if thorough { Box::new(|k| k < 60 || k % 40 == 0) } else { Box::new(|k| k < 30 || k % 10 == 0) };
+                    if thorough { Box::new(|k| k < 200 || k % 20 == 0) } else { Box::new(|k| k < 60 || k % 5 == 0) };
                 let (summary, lines) = template_run(name, variant, instance, iters, seed, sample);
                 out.case(&format!("{name}/run"), &format!("(run {name} {variant} {instance} {iters} {seed})"), &summary);
                 for (k, l) in lines {
